@@ -269,8 +269,19 @@ pub type Reader = fn(&str) -> Result<alloc::vec::Vec<u8>, alloc::boxed::Box<dyn 
 /// the content of the virtual file system at `path`: `Err(hash)` when the path is absent
 #[cfg(feature = "alloc")]
 pub fn virtual_file(path: &str) -> Result<alloc::vec::Vec<u8>, u64> {
+    virtual_file_salted(path, b"")
+}
+
+/// another file system over the same path names: different contents (and a different set of absent paths) per salt;
+/// with a non-empty salt every path ending in `localtime` is present
+#[cfg(feature = "alloc")]
+pub fn virtual_file_salted(path: &str, salt: &[u8]) -> Result<alloc::vec::Vec<u8>, u64> {
     let mut h = Digest::new();
+    h.b(salt);
     h.b(path.as_bytes());
+    if !salt.is_empty() && path.ends_with("localtime") {
+        h.0 &= !1;
+    }
     if h.0 % 2 == 1 {
         return Err(h.0);
     }
@@ -293,6 +304,16 @@ pub fn virtual_file(path: &str) -> Result<alloc::vec::Vec<u8>, u64> {
 #[cfg(feature = "alloc")]
 fn path_sensitive_reader(path: &str) -> Result<alloc::vec::Vec<u8>, alloc::boxed::Box<dyn core::error::Error + Send + Sync + 'static>> {
     virtual_file(path).map_err(|_| "No such file (virtual)".into())
+}
+
+#[cfg(feature = "alloc")]
+fn salted_reader_1(path: &str) -> Result<alloc::vec::Vec<u8>, alloc::boxed::Box<dyn core::error::Error + Send + Sync + 'static>> {
+    virtual_file_salted(path, b"one:").map_err(|_| "No such file (virtual)".into())
+}
+
+#[cfg(feature = "alloc")]
+fn salted_reader_2(path: &str) -> Result<alloc::vec::Vec<u8>, alloc::boxed::Box<dyn core::error::Error + Send + Sync + 'static>> {
+    virtual_file_salted(path, b"two:").map_err(|_| "No such file (virtual)".into())
 }
 
 /// digest of the resolution workload with a caller-supplied reader over the same virtual file system (the std
@@ -341,6 +362,31 @@ fn resolution_workload_with(d: &mut Digest, reader: Reader) {
         match settings.parse_local() {
             Ok(z) => d.i(z.as_ref().local_time_types()[0].ut_offset() as i64),
             Err(_) => d.i(-12),
+        }
+    }
+    // histories: the same calls through settings whose readers serve *different contents under the same paths*,
+    // interleaved and repeated. What a call returns is determined by its own settings and value; an answer that
+    // depends on what an earlier call read (a memo kept in one feature configuration only) changes the digest there
+    let readers: [Reader; 3] = [reader, salted_reader_1, salted_reader_2];
+    const HDIRS: [&[&str]; 4] = [TimeZoneSettings::DEFAULT_DIRECTORIES, &["/d1", "/d2"], &[], &["/usr/share/zoneinfo"]];
+    for round in 0..3 {
+        for dirs in HDIRS {
+            for (k, rd) in readers.iter().enumerate() {
+                let settings = TimeZoneSettings::new(dirs, *rd);
+                let k = (k + round) % 3;
+                for step in 0..4 {
+                    let r = match (step + k) % 4 {
+                        0 => settings.parse_local(),
+                        1 => settings.parse_posix_tz("localtime"),
+                        2 => settings.parse_posix_tz("Europe/Paris"),
+                        _ => settings.parse_posix_tz(":/etc/localtime"),
+                    };
+                    match r {
+                        Ok(z) => d.i(z.as_ref().local_time_types()[0].ut_offset() as i64),
+                        Err(_) => d.i(-13),
+                    }
+                }
+            }
         }
     }
 }
